@@ -18,6 +18,7 @@ use tachys::{
 use wasm_bindgen::JsCast;
 use web_sys::HtmlElement;
 
+#[cfg(not(leptos_verif))]
 #[cfg(feature = "hydrate")]
 /// Hydrates the app described by the provided function, starting at `<body>`.
 pub fn hydrate_body<F, N>(f: F)
@@ -34,6 +35,7 @@ thread_local! {
     static FIRST_CALL: Cell<bool> = const { Cell::new(true) };
 }
 
+#[cfg(not(leptos_verif))]
 #[cfg(feature = "hydrate")]
 /// Runs the provided closure and mounts the result to the provided element.
 pub fn hydrate_from<F, N>(parent: HtmlElement, f: F) -> UnmountHandle<N::State>
@@ -125,12 +127,48 @@ where
     let mountable = owner.with(move || {
         let view = f().into_view();
         let mut mountable = view.build();
+        #[cfg(not(leptos_verif))]
         mountable.mount(&parent, None);
+        // there are no `web_sys` elements in verification builds: use `mount_to_renderer`
+        #[cfg(leptos_verif)]
+        let _ = &parent;
         mountable
     });
 
     // returns a handle that owns the owner
     // when this is dropped, it will clean up the reactive system and unmount the view
+    UnmountHandle { owner, mountable }
+}
+
+/// Hydrates the view returned by the provided closure, starting at the provided element of the
+/// in-memory DOM (verification builds only; the counterpart of `hydrate_from`).
+#[cfg(leptos_verif)]
+#[cfg(feature = "hydrate")]
+pub fn hydrate_from<F, N>(
+    parent: tachys::renderer::types::Element,
+    f: F,
+) -> UnmountHandle<N::State>
+where
+    F: FnOnce() -> N + 'static,
+    N: IntoView,
+{
+    use hydration_context::HydrateSharedContext;
+    use std::sync::Arc;
+
+    #[cfg(debug_assertions)]
+    FIRST_CALL.set(false);
+
+    // the executor is owned by the caller in verification builds
+    let owner = Owner::new_root(Some(Arc::new(HydrateSharedContext::new())));
+    let mountable = owner.with(move || {
+        let view = f().into_view();
+        view.hydrate::<true>(&Cursor::new(parent), &PositionState::default())
+    });
+
+    if let Some(sc) = Owner::current_shared_context() {
+        sc.hydration_complete();
+    }
+
     UnmountHandle { owner, mountable }
 }
 
